@@ -702,6 +702,9 @@ fn main() {
     cx.seq_ops(&cases);
     phase_s.push(("seq".into(), t_phase.elapsed().as_secs_f64()));
     // ---- 4. (K1a) programs -------------------------------------------------------------------------
+    for (name, src) in object_programs() {
+        items.push((format!("objects:{}", name), src, None));
+    }
     for f in ["comments", "enums", "error_handling", "import", "load_and_run", "meta_maps", "primes"] {
         let p = format!("/repo/koto/tests/{}.koto", f);
         if let Ok(s) = std::fs::read_to_string(&p) {
